@@ -8,6 +8,7 @@ import (
 	"math"
 	"strconv"
 	"strings"
+	"unicode/utf8"
 )
 
 var NaN float64
@@ -443,7 +444,10 @@ func (parser *Parser) ParseExpression(depth int) (res Sexp, err error) {
 		}
 		return &SexpInt{Val: i}, nil
 	case TokenChar:
-		return &SexpChar{Val: rune(tok.str[0])}, nil
+		// the token holds the character as UTF-8 text: decode the
+		// whole rune, not just its first byte.
+		r, _ := utf8.DecodeRuneInString(tok.str)
+		return &SexpChar{Val: r}, nil
 	case TokenString:
 		return &SexpStr{S: tok.str}, nil
 	case TokenBeginBacktickString:
